@@ -137,7 +137,7 @@ theorem C04_recipient_factory {cfg : Cfg} {env : Env} {r : Response} {o : Report
 theorem visible_accepted_respfactory {cfg : Cfg} {env : Env} {r : Response} {o : Reported}
     (h : processRespFactory cfg env r = .identity o) :
     ∃ rs, ∀ a ∈ visible r, ∃ v s s', checkAssertion cfg env rs v s a = .ok s' := by
-  obtain ⟨p, _, hv, _⟩ := processRespFactory_identity_inv h
+  obtain ⟨cf, p, _, hv, _⟩ := processRespFactory_identity_inv h
   exact ⟨cfg.wantAssert, verify_visible_accepted hv⟩
 
 /-- Audience, for `response_factory`. -/
@@ -151,7 +151,7 @@ theorem C04_audience_respfactory {cfg : Cfg} {env : Env} {r : Response} {o : Rep
 theorem C04_destination_respfactory {cfg : Cfg} {env : Env} {r : Response} {o : Reported}
     (h : processRespFactory cfg env r = .identity o) (hasync : env.asynchop = true)
     (d : String) (hd : r.destination = some d) (hne : d ≠ "") : d ∈ cfg.returnAddrs := by
-  obtain ⟨p, _, hv, _⟩ := processRespFactory_identity_inv h
+  obtain ⟨cf, p, _, hv, _⟩ := processRespFactory_identity_inv h
   exact verify_destination hv hasync d hd hne
 
 /-- Recipient, for `response_factory`. -/
